@@ -1,0 +1,229 @@
+//! Verification-only container models. Compiled only under `cfg(kani)` (set by `cargo kani`).
+//!
+//! These are `Vec`-backed models of the parts of `std::collections::{HashMap, BTreeMap}` that the
+//! crate and the verification harnesses use. `HashMap` iteration order is chosen nondeterministically
+//! (any permutation), `BTreeMap` iterates in key order. No crate logic lives here.
+use std::borrow::Borrow;
+
+fn nondet_below(n: usize) -> usize {
+    let i: usize = kani::any();
+    kani::assume(i < n);
+    i
+}
+
+#[derive(Clone, Debug)]
+pub struct HashMap<K, V> {
+    items: Vec<(K, V)>,
+}
+
+impl<K, V> Default for HashMap<K, V> {
+    fn default() -> Self {
+        HashMap { items: Vec::new() }
+    }
+}
+
+impl<K: Eq, V> HashMap<K, V> {
+    pub fn new() -> Self {
+        HashMap { items: Vec::new() }
+    }
+    pub fn len(&self) -> usize {
+        self.items.len()
+    }
+    pub fn is_empty(&self) -> bool {
+        self.items.is_empty()
+    }
+    pub fn insert(&mut self, k: K, v: V) -> Option<V> {
+        let mut i = 0;
+        while i < self.items.len() {
+            if self.items[i].0 == k {
+                return Some(core::mem::replace(&mut self.items[i].1, v));
+            }
+            i += 1;
+        }
+        self.items.push((k, v));
+        None
+    }
+    pub fn get<Q: ?Sized + Eq>(&self, k: &Q) -> Option<&V>
+    where
+        K: Borrow<Q>,
+    {
+        let mut i = 0;
+        while i < self.items.len() {
+            if self.items[i].0.borrow() == k {
+                return Some(&self.items[i].1);
+            }
+            i += 1;
+        }
+        None
+    }
+    pub fn contains_key<Q: ?Sized + Eq>(&self, k: &Q) -> bool
+    where
+        K: Borrow<Q>,
+    {
+        self.get(k).is_some()
+    }
+    /// Values in a nondeterministically chosen order (any permutation of the entries).
+    pub fn values(&self) -> Values<'_, K, V> {
+        Values {
+            map: self,
+            visited: 0,
+            left: self.items.len(),
+        }
+    }
+    /// Entries in insertion order; for harness-side inspection only (the crate never calls it).
+    pub fn verif_entries(&self) -> &[(K, V)] {
+        &self.items
+    }
+}
+
+pub struct Values<'a, K, V> {
+    map: &'a HashMap<K, V>,
+    visited: u64,
+    left: usize,
+}
+
+impl<'a, K, V> Iterator for Values<'a, K, V> {
+    type Item = &'a V;
+    fn next(&mut self) -> Option<&'a V> {
+        if self.left == 0 {
+            return None;
+        }
+        let n = self.map.items.len();
+        if n == 1 {
+            self.left = 0;
+            return Some(&self.map.items[0].1);
+        }
+        let i = nondet_below(n);
+        kani::assume(self.visited & (1u64 << i) == 0);
+        self.visited |= 1u64 << i;
+        self.left -= 1;
+        Some(&self.map.items[i].1)
+    }
+}
+
+#[derive(Clone, Debug)]
+pub struct BTreeMap<K, V> {
+    items: Vec<(K, V)>,
+}
+
+impl<K, V> Default for BTreeMap<K, V> {
+    fn default() -> Self {
+        BTreeMap { items: Vec::new() }
+    }
+}
+
+impl<K: Ord, V> BTreeMap<K, V> {
+    pub fn new() -> Self {
+        BTreeMap { items: Vec::new() }
+    }
+    pub fn len(&self) -> usize {
+        self.items.len()
+    }
+    pub fn is_empty(&self) -> bool {
+        self.items.is_empty()
+    }
+    pub fn insert(&mut self, k: K, v: V) -> Option<V> {
+        let mut i = 0;
+        while i < self.items.len() {
+            if self.items[i].0 == k {
+                return Some(core::mem::replace(&mut self.items[i].1, v));
+            }
+            i += 1;
+        }
+        self.items.push((k, v));
+        None
+    }
+    pub fn get<Q: ?Sized + Ord>(&self, k: &Q) -> Option<&V>
+    where
+        K: Borrow<Q>,
+    {
+        let mut i = 0;
+        while i < self.items.len() {
+            if self.items[i].0.borrow() == k {
+                return Some(&self.items[i].1);
+            }
+            i += 1;
+        }
+        None
+    }
+    /// Entries in ascending key order.
+    pub fn iter(&self) -> Iter<'_, K, V> {
+        Iter {
+            map: self,
+            last: None,
+            left: self.items.len(),
+        }
+    }
+}
+
+pub struct Iter<'a, K, V> {
+    map: &'a BTreeMap<K, V>,
+    last: Option<&'a K>,
+    left: usize,
+}
+
+impl<'a, K: Ord, V> Iterator for Iter<'a, K, V> {
+    type Item = (&'a K, &'a V);
+    fn next(&mut self) -> Option<(&'a K, &'a V)> {
+        if self.left == 0 {
+            return None;
+        }
+        // smallest key strictly greater than `last`
+        let mut best: Option<usize> = None;
+        let mut i = 0;
+        while i < self.map.items.len() {
+            let k = &self.map.items[i].0;
+            let after = match self.last {
+                None => true,
+                Some(l) => k > l,
+            };
+            if after {
+                best = match best {
+                    None => Some(i),
+                    Some(b) => {
+                        if *k < self.map.items[b].0 {
+                            Some(i)
+                        } else {
+                            Some(b)
+                        }
+                    }
+                };
+            }
+            i += 1;
+        }
+        let b = best?;
+        self.left -= 1;
+        self.last = Some(&self.map.items[b].0);
+        Some((&self.map.items[b].0, &self.map.items[b].1))
+    }
+}
+
+impl<K: Ord, V: PartialEq> PartialEq for BTreeMap<K, V> {
+    fn eq(&self, other: &Self) -> bool {
+        if self.len() != other.len() {
+            return false;
+        }
+        let mut a = self.iter();
+        let mut b = other.iter();
+        loop {
+            match (a.next(), b.next()) {
+                (None, None) => return true,
+                (Some((ka, va)), Some((kb, vb))) => {
+                    if ka != kb || va != vb {
+                        return false;
+                    }
+                }
+                _ => return false,
+            }
+        }
+    }
+}
+impl<K: Ord, V: Eq> Eq for BTreeMap<K, V> {}
+impl<K: Ord + core::hash::Hash, V: core::hash::Hash> core::hash::Hash for BTreeMap<K, V> {
+    fn hash<H: core::hash::Hasher>(&self, state: &mut H) {
+        for (k, v) in self.iter() {
+            k.hash(state);
+            v.hash(state);
+        }
+    }
+}
